@@ -3,14 +3,18 @@ Proof: coq/theories/Properties/C02.v (models Query/{Compare,Paging,ScanUnique,Sc
 Correspondence: Store.QueryIds, Store.QueryWithCursorC and Store.IterateIds of a real bolt store
 against the extracted model and the extracted specification, on generated datasets (ties, nulls
 of every sortable type) x sort specifications x the bounded-exhaustive paging grid and the pairs at
-the numeric extremes of int64 (skip + limit at and beyond MaxInt64 with a finite limit)."""
+the numeric extremes of int64 (skip + limit at and beyond MaxInt64 with a finite limit); through every
+store of a parent / child / grandchild chain (plain and extended) over a mixed population; and as
+programs over ONE compiled query object (executed repeatedly through QueryIdsC / QueryWithCursorC /
+IterateIds / the objectz twin, with the caller's SetSkip / SetLimit / AdoptSortFields / SetPredicate
+in between): models Query/ChildScan.v."""
 import json
 import os
 
 import vlib
 
 PID = "C02"
-FILES = ["theories/Properties/C02.v", "theories/Examples/C02Examples.v"]
+FILES = ["theories/Properties/C02.v", "theories/Examples/C02Examples.v", "theories/Examples/C02ChildRerun.v"]
 
 
 def fields(line):
@@ -85,16 +89,82 @@ class Runner:
         return impl, modl, text
 
 
-def drop_row(dline, qline, k):
-    f = dline.split()
-    n, nc = int(f[1]), int(f[2])
-    rows = [f[3 + i * (nc + 1): 3 + (i + 1) * (nc + 1)] for i in range(n)]
-    del rows[k]
-    d2 = " ".join(["D", str(n - 1), str(nc)] + [t for r in rows for t in r])
+ENTRY = {"q": "query", "w": "cursor-query", "i": "iterate", "o": "objectz"}
+ENTRY_API = {"q": "QueryIdsC", "w": "QueryWithCursorC", "i": "IterateIds", "o": "objectz QueryEntitiesC"}
+
+
+def parse_program(case):
+    """R line -> (query dict, ops); an op is a list of tokens, ops[k][0] in q w i o x S L A P"""
+    f = case.split()
+    ns = int(f[2])
+    pos = 3 + 3 * ns
+    q = dict(kind="R", bits=f[1], sort=[tuple(f[3 + 3 * i: 6 + 3 * i]) for i in range(ns)], skip=f[pos], limit=f[pos + 1])
+    pos += 3
+    ops = []
+    while pos < len(f):
+        t = f[pos]
+        if t in ("S", "L", "P"):
+            ops.append(f[pos:pos + 2])
+            pos += 2
+        elif t == "A":
+            k = int(f[pos + 1])
+            ops.append(f[pos:pos + 2 + 3 * k])
+            pos += 2 + 3 * k
+        else:
+            ops.append([t])
+            pos += 1
+    return q, ops
+
+
+def program_line(case, ops):
+    f = case.split()
+    head = f[:3 + 3 * int(f[2]) + 2]
+    return " ".join(head + [str(len(ops))] + [t for op in ops for t in op])
+
+
+def runs_of(ops):
+    return [op[0] for op in ops if op[0] in ENTRY]
+
+
+def view_name(ctx):
+    """('root' | 'child' | ..., is it a store below the root)"""
+    v = [l for l in ctx if l.startswith("V ")]
+    if not v:
+        return "root", False
+    _, tier, ext = v[-1].split()
+    return ["root", "child", "grandchild"][int(tier)] + ("-extended" if ext == "1" else ""), tier != "0"
+
+
+def drop_bit(bits, k):
+    if bits == "e":
+        return bits
+    b = bits[:k] + bits[k + 1:]
+    return b if b else "e"
+
+
+def drop_row(ctx, qline, k):
+    """remove row k from the dataset line, the layout line and every match-bits token of the case"""
+    out = []
+    for line in ctx:
+        f = line.split()
+        if f[0] == "D":
+            n, nc = int(f[1]), int(f[2])
+            rows = [f[3 + i * (nc + 1): 3 + (i + 1) * (nc + 1)] for i in range(n)]
+            del rows[k]
+            line = " ".join(["D", str(n - 1), str(nc)] + [t for r in rows for t in r])
+        elif f[0] == "L":
+            f[1] = drop_bit(f[1], k)
+            line = " ".join(f)
+        out.append(line)
     qf = qline.split()
-    bits = qf[1][:k] + qf[1][k + 1:]
-    qf[1] = bits if bits else "e"
-    return d2, " ".join(qf)
+    qf[1] = drop_bit(qf[1], k)
+    if qf[0] == "R":
+        _, ops = parse_program(" ".join(qf))
+        for op in ops:
+            if op[0] == "P":
+                op[1] = drop_bit(op[1], k)
+        return out, program_line(" ".join(qf), ops)
+    return out, " ".join(qf)
 
 
 def wrong(impl_line, model_line, part):
@@ -113,46 +183,100 @@ def drop_sort_field(qline, k):
     return " ".join(f)
 
 
-def shrink(runner, dline, qline, part, keep_key=None):
-    """greedy: drop rows, then sort keys, while the implementation's answer still differs from the
-    specification (and, when keep_key is given, the failure stays in the same class)"""
-    def still_bad(d2, q2):
-        impl, modl, _ = runner.run([d2, q2])
-        if not impl or len(impl) != 2 or not wrong(impl[1], modl[1], part):
+def program_failures(case, impl_line, model_line, child):
+    """[(key, run index, what)] for an R case: every execution must return the specified answer of the query as
+    the caller's mutators left it, and must leave the query object asking for the same page"""
+    _, ops = parse_program(case)
+    runs = runs_of(ops)
+    fi, fm = fields(impl_line), fields(model_line)
+    pre = "C02:rerun-"          # about the query object; a failing FIRST execution is a plain (child-)query failure
+    out = []
+    if fi.get("n") != str(len(runs)) or "adopt" in fi or "pred" in fi or "parse" in fi:
+        return [(pre + "error", 0, "the program did not run: %s" % impl_line[:200])]
+    consumed = None      # first execution after which the query object asks for another page than written
+    for k, e in enumerate(runs):
+        if fi.get("e%d" % k) != fm.get("e%d" % k):
+            consumed = (k, "execution %d (%s) left the query object asking for skip/limit %s instead of %s" % (
+                k + 1, ENTRY_API[e], fi.get("e%d" % k), fm.get("e%d" % k)))
+            break
+    for k, e in enumerate(runs):
+        got, want = fi.get("a%d" % k), fm.get("s%d" % k)
+        if got != want:
+            if e == "i":
+                cls = "page" if got.startswith("i:") else got.lower()
+            else:
+                gc, gi = split_res(got)
+                wc, wi = split_res(want)
+                cls = gc.lower() if gi is None else "count" if gc != wc else "order" if sorted(gi) == sorted(wi) else "page"
+            nth = "first execution" if k == 0 else "execution %d" % (k + 1)
+            fresh = k == 0 and ops[0][0] in ENTRY      # nothing happened to the query object before: a plain query
+            what = "%s of ONE compiled query (%s) returned %s, specification %s" % (ENTRY_API[e], nth, got, want)
+            if consumed and consumed[0] < k:
+                what += " - " + consumed[1]
+            out.append(("%s%s-%s" % ("C02:child-" if fresh and child else "C02:" if fresh else pre, ENTRY[e], cls), k, what))
+            return out
+    if consumed:
+        out.append((pre + "query-consumed", consumed[0],
+                    "executing a compiled query changed what it asks for (a later execution returns another page): " + consumed[1]))
+    return out
+
+
+def shrink(runner, ctx, qline, part, keep_key=None, child=False):
+    """greedy: drop rows, then sort keys (for programs: operations), while the implementation's answer still
+    differs from the specification (and, when keep_key is given, the failure stays in the same class)"""
+    def still_bad(c2, q2):
+        impl, modl, _ = runner.run(c2 + [q2])
+        if not impl or len(impl) != len(c2) + 1 or len(modl) != len(impl):
+            return False
+        if part == "prog":
+            fails = program_failures(q2, impl[-1], modl[-1], child)
+            return bool(fails) and (keep_key is None or fails[0][0] == keep_key)
+        if not wrong(impl[-1], modl[-1], part):
             return False
         if keep_key and part != "iter":
-            fi, fm = fields(impl[1]), fields(modl[1])
+            fi, fm = fields(impl[-1]), fields(modl[-1])
             got = fi["query" if part == "query" else "wc"]
-            name = "query" if part == "query" else "cursor-query"
+            name = ("child-" if child else "") + ("query" if part == "query" else "cursor-query")
             return classify(parse_query(q2), got, fm["spec"], fm["legacy"], name) == keep_key
         return True
     changed = True
     while changed:
         changed = False
-        n = int(dline.split()[1])
+        if part == "prog":
+            _, ops = parse_program(qline)
+            for k in range(len(ops)):
+                q2 = program_line(qline, ops[:k] + ops[k + 1:])
+                if still_bad(ctx, q2):
+                    qline, changed = q2, True
+                    break
+            if changed:
+                continue
+        n = int(ctx[0].split()[1])
         for k in range(n):
-            d2, q2 = drop_row(dline, qline, k)
-            if still_bad(d2, q2):
-                dline, qline, changed = d2, q2, True
+            c2, q2 = drop_row(ctx, qline, k)
+            if still_bad(c2, q2):
+                ctx, qline, changed = c2, q2, True
                 break
         if changed:
             continue
         for k in range(int(qline.split()[2])):
             q2 = drop_sort_field(qline, k)
-            if still_bad(dline, q2):
+            if still_bad(ctx, q2):
                 qline, changed = q2, True
                 break
-    return dline, qline
+    return ctx, qline
 
 
 def main(argv):
     c = vlib.Check(PID, argv)
     c.cov["trusted_base"] = [
         "Coq 8.16.1 kernel (coqc; coqchk in the thorough tier); vm_compute in Examples only; no axioms",
-        "hand-written models Query/Compare.v, Paging.v, ScanUnique.v, ScanSort.v of boltz query_sort.go / query_scanners.go / store_query.go",
+        "hand-written models Query/Compare.v, Paging.v, ScanUnique.v, ScanSort.v, ChildScan.v of boltz query_sort.go / query_scanners.go / store_query.go "
+        "(ChildScan.v: the child-store test of every scan loop; a compiled ast.Query as (predicate, sort fields, skip, limit) and setPaging's write-back)",
         "llrb.Tree modelled as an ordered list (Insert replaces on equal, DeleteMax, in-order Do); bbolt cursor = ids in byte order",
         "extraction (ExtrOcamlBasic only) + extraction/c02_driver.ml + drv_common.ml",
-        "Go harness cmd/storageharness/c02.go (generators, match bits of the catalogue filters, query printer) and this comparison",
+        "Go harness cmd/storageharness/c02.go + c02child.go (generators, match bits of the catalogue filters, query printer, the bolt layout of a "
+        "root / child / grandchild store chain, interpreter of programs over one compiled query) and this comparison",
         "filter evaluation itself (property C01) - C02 uses a catalogue of seven simple filters whose answer the harness computes itself",
     ]
     c.assumptions = [
@@ -160,6 +284,10 @@ def main(argv):
         "no NaN float sort keys for the ordering theorems (NaN datasets are a separate stream checked only for count and page size)",
         "fewer than 2^63 rows",
         "IterateIds is an id-ordered set cursor: the sort clause does not apply to it",
+        "the entities of a child store are the rows of the root store that have the child's bucket; an extended child store ranges over "
+        "every row of the root store and reads its own fields as nil where the bucket is missing (IterateValidIds is not part of the check)",
+        "executing a compiled query may rewrite skip / limit of the query object as long as the query keeps asking for the same page "
+        "(nil or negative skip = 0, nil or negative limit = unbounded = MaxInt64)",
     ]
     proof_ok = c.proof_step(FILES)
     model = vlib.build_model("C02")
@@ -172,15 +300,24 @@ def main(argv):
 
     if c.replay:
         rp = json.load(open(c.replay))
-        impl, modl, text = runner.run(rp["case"].split("\n"))
+        lines = rp["case"].split("\n")
+        impl, modl, text = runner.run(lines)
         if impl is None:
             vlib.log("replay failed: %s" % text)
             return 1
         bad = 0
-        for case, i, m in zip(rp["case"].split("\n"), impl, modl):
+        ctx = []
+        for case, i, m in zip(lines, impl, modl):
             vlib.log("REPLAY case=%s\n  impl =%s\n  model=%s" % (case, i, m))
-            if case.startswith(("Q", "X")) and (wrong(i, m, "query") or wrong(i, m, "wc") or wrong(i, m, "iter")):
+            if case.startswith(("D", "L", "V")):
+                ctx = [case] if case.startswith("D") else ctx + [case]
+            elif case.startswith(("Q", "X")) and (wrong(i, m, "query") or wrong(i, m, "wc") or wrong(i, m, "iter")):
                 bad += 1
+            elif case.startswith("R"):
+                fails = program_failures(case, i, m, view_name(ctx)[1])
+                for _, _, what in fails:
+                    vlib.log("  -> " + what)
+                bad += len(fails)
         vlib.log("replay query text: %s" % text)
         vlib.log("REPLAY %s" % ("still violates the specification" if bad else "agrees with the specification"))
         c.finish()
@@ -200,26 +337,44 @@ def main(argv):
     distinct = set()
     disagreements = []
     reported = {}          # key -> count of shrunk replays
+    derived = {}           # key -> failures of a class already reported in its plain form
     nqueries = 0
-    dline, dindex = None, 0
+    nexec = 0
+    ctx, dindex = [], 0    # context lines of the current case: D [L] [V]
     samples = []
 
     def report(key, part, case, i, m, what, keep_key=None):
+        # a class already shown on a plain query (of the root store, else of a child store) is not shrunk again
+        # for child stores / programs
+        base = key.replace("rerun-", "").replace("child-", "")
+        if key != base and any(k in reported for k in (base, base.replace("C02:", "C02:child-")) if k != key):
+            derived[key] = derived.get(key, 0) + 1
+            return
         if reported.get(key, 0) >= 2:
             reported[key] = reported.get(key, 0) + 1
             return
         reported[key] = reported.get(key, 0) + 1
-        d2, q2 = shrink(runner, dline, case, part, keep_key)
-        impl2, modl2, text = runner.run([d2, q2])
+        vname, child = view_name(ctx)
+        c2, q2 = shrink(runner, list(ctx), case, part, keep_key, child)
+        impl2, modl2, text = runner.run(c2 + [q2])
         text = (text or ["?"])[0]
-        if impl2 and len(impl2) == 2:
-            fi2, fm2 = fields(impl2[1]), fields(modl2[1])
-            got = fi2.get({"query": "query", "wc": "wc", "iter": "iter"}[part])
-            want = fm2.get("iterspec" if part == "iter" else "spec")
-            what = "%s; minimal: `%s` on %s row(s) returns %s, specification %s" % (what, text, d2.split()[1], got, want)
-        c.violation(key, what, dict(case=d2 + "\n" + q2, query_text=text,
-                                    impl=impl2[1] if impl2 else i, model=modl2[1] if modl2 else m,
-                                    original_case=dline + "\n" + case, part=part))
+        through = "" if vname == "root" else " through the %s store (layout %s)" % (
+            vname, " ".join(l for l in c2 if l.startswith("L ")))
+        if impl2 and len(impl2) == len(c2) + 1:
+            if part == "prog":
+                fails = program_failures(q2, impl2[-1], modl2[-1], child)
+                if fails:
+                    what = fails[0][2]
+                what = "%s; minimal: `%s` on %s row(s)%s" % (what, text, c2[0].split()[1], through)
+            else:
+                fi2, fm2 = fields(impl2[-1]), fields(modl2[-1])
+                got = fi2.get({"query": "query", "wc": "wc", "iter": "iter"}[part])
+                want = fm2.get("iterspec" if part == "iter" else "spec")
+                what = "%s; minimal: `%s` on %s row(s)%s returns %s, specification %s" % (
+                    what, text, c2[0].split()[1], through, got, want)
+        c.violation(key, what, dict(case="\n".join(c2 + [q2]), query_text=text, store=vname,
+                                    impl=impl2[-1] if impl2 else i, model=modl2[-1] if modl2 else m,
+                                    original_case="\n".join(ctx + [case]), part=part))
 
     def nan_key(q, default):
         skip = None if q["skip"] == "-" else int(q["skip"])
@@ -232,16 +387,36 @@ def main(argv):
 
     for case, i, m in zip(cases, impl, modl):
         if case.startswith("D"):
-            dline, dindex = case, dindex + 1
+            ctx, dindex = [case], dindex + 1
+            continue
+        if case.startswith("L"):
+            ctx = [ctx[0], case]
+            continue
+        if case.startswith("V"):
+            ctx = [l for l in ctx if not l.startswith("V")] + [case]
             continue
         nqueries += 1
+        vname, child = view_name(ctx)
+        pre = "child-" if child else ""
+        if case.startswith("R"):
+            q, ops = parse_program(case)
+            nexec += len(runs_of(ops))
+            if len(runs_of(ops)) >= 2 and q["bits"].count("1") >= 2:
+                distinct.add((dindex, vname, case))
+            fm = fields(m)
+            if any(fm.get("a%d" % k) != fm.get("s%d" % k) for k in range(int(fm.get("n", "0")))):
+                disagreements.append(("\n".join(ctx), case, i, m, "extracted model differs from extracted specification (program)"))
+            for key, _, what in program_failures(case, i, m, child)[:1]:
+                report(key, "prog", case, i, m, what, keep_key=key)
+            continue
+        nexec += 3
         q = parse_query(case)
         fi, fm = fields(i), fields(m)
         if len(samples) < 3 and nqueries in (1, 700, 2500):
-            samples.append(dict(dataset=dline, case=case, impl=i, model=m))
+            samples.append(dict(dataset=ctx[0], case=case, impl=i, model=m))
         nmatch = q["bits"].count("1")
         if nmatch >= 2 and (q["sort"] or q["skip"] != "-" or q["limit"] != "-"):
-            distinct.add((dindex, case))
+            distinct.add((dindex, vname, case))
         if q["kind"] == "X":
             # NaN sort keys: the order is outside the theorems; count, page size and membership are not
             sc, si = split_res(fm["spec"])
@@ -258,21 +433,22 @@ def main(argv):
             continue
         if fm["query"] != fm["spec"] or fm["iter"] != fm["iterspec"] or fm["sorting"] != fm["spec"]:
             # contradicts the theorems: extraction or driver problem
-            disagreements.append((dline, case, i, m, "extracted model differs from extracted specification"))
-        for part, key, name in (("query", "query", "query"), ("wc", "wc", "cursor-query")):
+            disagreements.append(("\n".join(ctx), case, i, m, "extracted model differs from extracted specification"))
+        for part, key, name in (("query", "query", pre + "query"), ("wc", "wc", pre + "cursor-query")):
             if fi[key] != fm["spec"]:
                 k = classify(q, fi[key], fm["spec"], fm["legacy"], name)
                 report(k, part, case, i, m, "%s returned %s, specification %s" % (
                     "QueryIds" if part == "query" else "QueryWithCursorC", fi[key], fm["spec"]), keep_key=k)
             elif fi[key] != fm["query"]:
-                disagreements.append((dline, case, i, m, "model differs from implementation"))
+                disagreements.append(("\n".join(ctx), case, i, m, "model differs from implementation"))
         if fi["iter"] != fm["iterspec"]:
-            k = "C02:iterate-page" if fi["iter"] not in ("ERR", "PANIC", "RUNAWAY") else "C02:iterate-" + fi["iter"].lower()
+            k = ("C02:%siterate-page" % pre) if fi["iter"] not in ("ERR", "PANIC", "RUNAWAY") else "C02:%siterate-%s" % (pre, fi["iter"].lower())
             report(k, "iter", case, i, m, "IterateIds returned %s, specification %s" % (fi["iter"], fm["iterspec"]))
 
     c.cov["evaluations"] = nqueries
+    c.cov["executions"] = nexec
     c.cov["distinct_nontrivial"] = len(distinct)
-    c.cov["disagreements_checked"] = len(disagreements) + sum(reported.values())
+    c.cov["disagreements_checked"] = len(disagreements) + sum(reported.values()) + sum(derived.values())
     c.cov["rule"] = ("per dataset (0..12 rows, ids with shared prefixes, columns string/int64/int32/float64/bool/datetime + two filter "
                      "columns, 0-60% nulls, values from small pools so that ties are frequent): sort specifications (every single key "
                      "in both directions, id-first combinations, 5-key specification, random 0..5(+) keys) x the full paging grid "
@@ -282,9 +458,20 @@ def main(argv):
                      "MinInt64 x absent, none, tiny, n, near-MaxInt64 limits) on every systematic specification of the probe dataset and a "
                      "rotating third + one specification per scan strategy elsewhere, + 40 random queries next to the int64 landmarks; "
                      "each query is run through QueryIds, QueryWithCursorC and IterateIds (stats: skip_plus_limit, strategy_x_sum). "
-                     "Non-trivial: at least two matching rows and a sort, skip or limit clause; distinct by (dataset, case text)")
+                     "Store chains: 3 (thorough 24) families root / child / grandchild over ONE entities bucket with rows of every level and "
+                     "columns owned by every tier (probe family with a fixed layout, a twin family, random ones); through each of the five "
+                     "stores root, child, child-extended, grandchild, grandchild-extended: every systematic specification the store can serve x 16 "
+                     "pages around the store's own size, the full paging grid for one specification per scan strategy, 30 random queries "
+                     "(stats: view_x_strategy, matching_rows_outside_the_store). Programs over ONE compiled query (ast.Parse once) on every "
+                     "dataset and every store: [e1, e2, e1] for the ordered pairs of entry points QueryIdsC / QueryWithCursorC / IterateIds / "
+                     "objectz QueryEntitiesC x one specification per scan strategy x 9 pages, + random programs of 4..9 operations with "
+                     "SetSkip / SetLimit / AdoptSortFields / SetPredicate and unrelated queries in between; every execution is compared with the "
+                     "specification of the query as the mutators left it, and the query object must keep asking for the same page "
+                     "(stats: program_*). Non-trivial: at least two matching rows and a sort, skip or limit clause (programs: at least two "
+                     "executions); distinct by (dataset, store, case text)")
     c.cov["samples"] = samples
     c.cov["violation_classes"] = reported
+    c.cov["violation_classes_not_replayed"] = derived
     try:
         c.cov["input_distribution"] = json.load(open(os.path.join(c.work, "stats.json")))
     except Exception:
@@ -292,8 +479,9 @@ def main(argv):
     if disagreements and not c.violations:
         d, case, i, m, why = disagreements[0]
         c.violation("C02:correspondence", "%s on %d cases, e.g. %s: impl %s model %s" % (why, len(disagreements), case, i, m),
-                    dict(correspondence="Query/ScanUnique.v + ScanSort.v vs boltz scanners",
-                         theorems=["query_ids_exact", "iterate_paged_exact"], case=d + "\n" + case, impl=i, model=m),
+                    dict(correspondence="Query/ScanUnique.v + ScanSort.v + ChildScan.v vs boltz scanners",
+                         theorems=["query_ids_exact", "iterate_paged_exact", "child_store_query_exact", "compiled_query_rerun_exact"],
+                         case=d + "\n" + case, impl=i, model=m),
                     no_input=True)
     if not proof_ok:
         c.violation("C02:proof", "proof obligation no longer checks: %s" % json.dumps(c.proof_broken)[:600],
